@@ -1,5 +1,6 @@
 import GomlVerif.Model.GoCompile
 import GomlVerif.Model.GoFrag
+import GomlVerif.Model.GoTyping
 import GomlVerif.Model.Dce
 import GomlVerif.Driver.DecSyntax
 import GomlVerif.Driver.DecGo
@@ -12,7 +13,10 @@ Prints `id<TAB>fresh<TAB>pipe<TAB>fns<TAB>frag` where
   `eliminateDeadVars (goFilePre env file n)` against the real `go_file` output, all items, in order
   (`n = 0` for the fresh run, `n = offset` for the pipeline's own output);
 * `fns`: per ANF function `name=EQ|DIFF|UNSUPPORTED|PRUNED`, comma separated (fresh run);
-* `frag`: per ANF function `name=in` or `name=<reason outside InGoFragment>`.
+* `frag`: per ANF function `name=in` (`in(typed)` when also `stdFn`: the typing half of T2 applies) or
+  `name=<reason outside InGoFragment>`;
+* `typed`: per Go function of the real file `name=AGREE|DISAGREE(…)|SKIP` — the total mirror `GoTyping.fnOKT` of
+  `Go.check`'s typing rules against `Go.check` itself.
 -/
 namespace Goml.Driver.GoComp
 open Goml Goml.Go Goml.GoCompile
@@ -145,7 +149,9 @@ def fragInfo (env : Env) (file : AFile) : List String :=
   let rec go (st : St) : List AFn → List String
     | [] => []
     | f :: rest =>
-      (f.name ++ "=" ++ (match Goml.GoFrag.outsideReason env file 0 G closed st f with | none => "in" | some r => r)) ::
+      (f.name ++ "=" ++ (match Goml.GoFrag.outsideReason env file 0 G closed st f with
+        | none => if Goml.GoFrag.stdFn f then "in(typed)" else "in"
+        | some r => r)) ::
         go (compileFn env st f).2 rest
   go { n := 0, ok := true } file
 
@@ -161,7 +167,8 @@ def runLine (l : String) : String :=
       let t2 := match off.toNat? with
         | some n => tie env file n pipe
         | none => "SKIP"
-      s!"{id}\t{clean t1}\t{clean t2}\t{",".intercalate ((perFn env file fresh).map clean)}\t{",".intercalate ((fragInfo env file).map clean)}"
+      let typed := (Goml.GoTyping.tieFile fresh).map fun p => clean p.1 ++ "=" ++ clean p.2
+      s!"{id}\t{clean t1}\t{clean t2}\t{",".intercalate ((perFn env file fresh).map clean)}\t{",".intercalate ((fragInfo env file).map clean)}\t{",".intercalate typed}"
     | e, f, g, p => s!"{id}\tdecode-error env={e.isSome} anf={f.isSome} fresh={g.isSome} pipe={p.isSome}"
   | _ => "?\tbad-line"
 
